@@ -18,7 +18,14 @@ MANIFEST = {
             "provider's non-empty tokens, in order, the first in a Bind and the others in AlterContext PDUs, each once; step() receives None and then each ack's token (or b''); no step "
             "after completion and no PDU after an empty token; header signing stays on iff offered and every ack carried the flag, and the flag offered in each PDU is the state before it; "
             "bind_nak / fault / unexpected PDU / EOF end the run with an error and no further PDU; a request context passes _process_bind_result only if the bind_ack accepted it. "
-            "Sync and async bind/request are the same normalised AST. Tie: kernels + trace correspondence of both client flavours over enumerated server scripts x provider scripts.",
+            "Sync and async bind/request are the same normalised AST. Tie: kernels + trace correspondence of both client flavours over enumerated server scripts x provider scripts. "
+            "Whole-run theorems (Properties/C15.v, all closed under the global context, about bind_run for every leg list and every server script): C15_tokens_out (one Bind with the first "
+            "token - sent even if empty - then only AlterContext PDUs carrying a prefix of the remaining legs' tokens, in order, each once, all non-empty, with exactly the contexts the "
+            "bind_ack accepted; C15_accepted_contexts: those are the offered contexts whose result is 0), C15_tokens_in (step arguments = a prefix of None :: token-or-b'' of each reply "
+            "consumed; #steps = #PDUs, or #PDUs + 1 exactly when a later step produced an empty token), C15_stops (one leg per step, every leg before the last step incomplete, no PDU for or "
+            "after a later empty token), C15_header_sign (final sign_header = every processed ack carried the flag; Bind offers 4; PDU j offers it iff the first j acks all carried it), "
+            "C15_fail_closed (reply k of the wrong kind => ValueError and exactly k+1 PDUs; unanswered PDU => EOFError, last PDU), C15_error_causes (the only failures: EOF, wrong reply, "
+            "IndexError from a result vector shorter than the contexts it answers, KeyError when the provider script is exhausted), C15_result, C15_anonymous (one Bind, flags 0, no token).",
     "note": "The handshake model is hand-written around regenerated guard kernels (tie by correspondence for the rest). The authentication provider and the server are scripts; pyspnego itself is not modelled.",
     "technique": "Coq proof (induction over scripts, regenerated guards) + enumerated-script trace correspondence",
 }
